@@ -1,3 +1,4 @@
 -- GENERATED
 import Driver.Proto
+import Driver.C04
 import Driver.C14
